@@ -868,6 +868,18 @@ class Interp:
             return Builtin(f"re.{attr}", _re_call(attr))
         if isinstance(obj, _re.Match):
             return Builtin(f"match.{attr}", lambda i, a, k, t, _o=obj, _n=attr: _wrap_py(getattr(_o, _n)(*a)))
+        if isinstance(obj, _re.Pattern):
+            if attr in ("pattern", "flags"):
+                return getattr(obj, attr)
+
+            def pat_call(i, a, k, t, _o=obj, _n=attr):
+                if _n in ("search", "match", "fullmatch", "findall", "sub", "split") and all(isinstance(x, (str, int)) for x in a):
+                    return _wrap_py(getattr(_o, _n)(*a, **k))
+                if _n in ("search", "match", "fullmatch"):
+                    i.events.append(("re", _n, [_o.pattern] + list(a)))
+                    return Opaque(f"re.{_n}({_o.pattern!r}, {', '.join(to_text(x) for x in a)})") if i.chooser.choose(t) else None
+                raise Unsupported(f"pattern.{_n} on abstract arguments")
+            return Builtin(f"pattern.{attr}", pat_call)
         raise Unsupported(f"attribute {attr} of {obj!r} in {text}")
 
     def e_Subscript(self, e, env, cls):
@@ -1038,6 +1050,8 @@ def _re_call(name):
     def f(i, a, k, t):
         if name in ("ASCII", "IGNORECASE"):
             raise Unsupported("re flag as call")
+        if name == "compile" and a and isinstance(a[0], str) and all(isinstance(x, (str, int)) for x in a):
+            return _re.compile(*a, **k)
         if all(isinstance(x, (str, int)) for x in a) and name in ("search", "match", "findall", "sub", "fullmatch"):
             return _wrap_py(getattr(_re, name)(*a, **k))
         if name in ("search", "match", "fullmatch"):
